@@ -9,6 +9,7 @@ variable {F : Type} [Scalar F]
     builds (state equality: any history, any values) -/
 theorem reset_eq (s : Maximum F) (h : WF s) : s.reset = some (fresh s.period) := by
   unfold reset
+  try simp only [gen_helper]
   simp [fill_all _ _ _ h.size, fresh]
 
 theorem reset_wf (s : Maximum F) (h : WF s) : ∃ r, s.reset = some r ∧ WF r ∧ r.period = s.period :=
